@@ -28,6 +28,13 @@ int rt_tolerate_known_reads = 1;
 void rt_known_read_site(int enter) {
   if (rt_tolerate_known_reads) vs_tolerate_freed_read8(enter);
 }
+GHOST void rt_dirty(void* p, unsigned long n) {
+  static const unsigned char pat[] = {0, 0xA5, 0xFF, 0x01, 0x80};
+  long k = cfg_get("dirty", 0);
+  if (k <= 0 || k > 4) return;
+  volatile unsigned char* b = p;
+  for (unsigned long i = 0; i < n; i++) b[i] = pat[k];
+}
 long cfg_get(const char* key, long dflt) {
   for (int i = 0; i < g_case.n_cfg; i++)
     if (!strcmp(g_case.cfg_key[i], key)) return g_case.cfg_val[i];
@@ -170,6 +177,7 @@ void verif_scheduled(void* scheduler, struct fiber* f) {
   if (mine && mine->scheduler && (void*)mine->scheduler != scheduler)
     vs_violation("foreign_queue_push", "vthread %d pushed fiber %p onto the run queue of another kernel thread's scheduler (%p, its own is %p): the owner end of a "
                  "work-stealing deque was used by a thread that does not own it", vs_self(), (void*)f, scheduler, (void*)mine->scheduler);
+  if (mine && f == mine->maintenance_fiber) vs_label_add("maintenance_fiber_queued", 1);
   grec_t* r = g_find(f, 0);
   if (!r) vs_violation("pending_wake_range", "schedule of unknown fiber %p", (void*)f);
   if (r->state == GS_DESTROYED) vs_violation("destroyed_in_use", "fiber %d (%p) scheduled after it was reclaimed", r->idx, (void*)f);
@@ -231,11 +239,12 @@ void verif_switch(struct fiber_manager* m, struct fiber* oldf, struct fiber* new
   vs_rt_exit();
 }
 
+static struct fiber_manager* g_mgr[VS_MAX_THREADS];
 void verif_switched(struct fiber_manager* m) {
-  (void)m;
   if (!vs_active()) return;
   vs_rt_enter();
   int T = vs_self();
+  g_mgr[T] = m;
   fiber_t* oldf = g_pending_old[T];
   if (oldf) {
     grec_t* o = g_find(oldf, 0);
@@ -288,6 +297,7 @@ int g_sleepers(void) {
   return n;
 }
 uint64_t g_switch_seq(void) { return g_seq; }
+GHOST void g_yield_noswitch(int idx) { gev_add(2, vs_self(), idx); }
 int g_fiber_switches(int idx) { return g_by_idx[idx] ? g_by_idx[idx]->switches : 0; }
 void g_expect_kernel_block(int on) { g_kernel_block_expected = on; }
 int g_n_done(void) {
@@ -322,6 +332,12 @@ static void describe_unfinished(char* buf, size_t n) {
 static void on_quiescence(void) {
   vs_rt_enter();
   g_quiescences++;
+  {
+    uint64_t spins = 0;
+    for (int t = 0; t < VS_MAX_THREADS; t++)
+      if (g_mgr[t]) spins += g_mgr[t]->wake_mpsc_spin_count;
+    vs_label_max("waker_found_queue_empty", spins);  // unlock/signal that had to wait for an announced, not yet enqueued waiter
+  }
   vs_label_add("quiescences", 1);
   // C02: when every kernel thread has gone idle no runnable fiber remains queued
   for (int u = 0; u < g_nrec; u++)
